@@ -63,7 +63,7 @@ def starts(lb, ub, tstar, box, mode):
 
 def job(args):
     name, cfgs, seed = args
-    out = {"viol": [], "runs": 0, "keys": [], "moved": 0, "truth": 0, "unsorted_bounds": 0, "active_bound": 0, "timeouts": 0}
+    out = {"viol": [], "runs": 0, "keys": [], "moved": 0, "truth": 0, "unsorted_bounds": 0, "active_bound": 0, "timeouts": 0, "skipped_nonpositive": 0, "undefined_cost": 0}
     c = detmodels.CATALOGUE[name]
     d = c["d"]
     states, params = d["states"], d["params"]
@@ -75,7 +75,8 @@ def job(args):
         noise_free = kind in ("Square", "Normal", "Gamma")
         if kind in ("Poisson", "NegBinom"):
             y = np.round(3 + 4 * np.abs(y))
-        if kind == "Gamma" and np.min(y) <= 0:
+        if kind in ("Gamma", "Poisson", "NegBinom") and np.min(observations(name, d, theta_gen, x0, t0, TIMES, cols, "Square")) <= 0.05:
+            out["skipped_nonpositive"] += 1       # a likelihood for positive data on a model whose states go negative (FitzHugh)
             continue
         n, p = y.shape
         w = None if wkind == "none" else [0.5 + 0.75 * j for j in range(p)]
@@ -141,6 +142,9 @@ def job(args):
             out["viol"].append((dict(sig, what="outside-box"), dict(case, xhat=xhat.tolist())))
             continue
         c0, c1 = refcost(start), refcost(xhat)
+        if not (np.isfinite(c0) and np.isfinite(c1)):
+            out["undefined_cost"] += 1          # the reference prediction is non-positive somewhere: the loss is undefined there
+            continue
         if not (c1 <= c0 + 1e-6 * (1 + abs(c0))):
             out["viol"].append((dict(sig, what="worse-than-start"), dict(case, xhat=xhat.tolist(), cost_start=c0, cost_returned=c1)))
             continue
@@ -205,7 +209,7 @@ def main(argv=None):
         keys.update(r["keys"])
         for sig, case in r["viol"]:
             run.violation(sig, case)
-    for k in ("moved", "truth", "unsorted_bounds", "active_bound", "timeouts"):
+    for k in ("moved", "truth", "unsorted_bounds", "active_bound", "timeouts", "skipped_nonpositive", "undefined_cost"):
         run.count("fits_" + k, sum(r[k] for r in res))
     run.sample({"model": jobs[0][0], "config": list(map(str, jobs[0][1][0]))})
     run.sample({"model": jobs[-1][0], "config": list(map(str, jobs[-1][1][-1]))})
